@@ -114,6 +114,12 @@ class _Rename(ast.NodeTransformer):
     def visit_arg(self, node):
         return node
 
+    def visit_ExceptHandler(self, node):
+        self.generic_visit(node)
+        if node.name and isinstance(self.mapping.get(node.name), str):
+            node.name = self.mapping[node.name]
+        return node
+
 
 def _bound_names(fnode):
     names = set()
@@ -313,6 +319,14 @@ class Inliner:
             if new_body is None:
                 return None
             mapping['__RET__'] = tgt
+            # `return <helper local>` as the last statement: let that local BE the result name instead of copying it
+            last = new_body[-1] if new_body else None
+            if isinstance(last, ast.Assign) and isinstance(last.targets[0], ast.Name) and last.targets[0].id == '__RET__' \
+                    and isinstance(last.value, ast.Name) and last.value.id in _bound_names(h.node) \
+                    and last.value.id not in binding and \
+                    not any(isinstance(n, ast.Name) and n.id == '__RET__' for st_ in new_body[:-1] for n in ast.walk(st_)):
+                mapping[last.value.id] = tgt
+                new_body = new_body[:-1]
         mod = ast.Module(body=pre + new_body, type_ignores=[])
         mod = _Rename(mapping).visit(mod)
         for st in mod.body:
@@ -351,6 +365,8 @@ class Inliner:
                     rep = self.expand(st.value.value, caller, None, True)
             if rep is None and depth > 0 and isinstance(st, (ast.Assign, ast.AugAssign, ast.AnnAssign, ast.Return, ast.Expr)):
                 rep = self._hoist(st, caller)
+            if rep is None and depth > 0 and isinstance(st, ast.If):
+                rep = self._hoist(st, caller, field='test')
             if rep is not None:
                 for r in rep:
                     ast.fix_missing_locations(r)
@@ -366,11 +382,11 @@ class Inliner:
             out.append(st)
         return out
 
-    def _hoist(self, st, caller):
+    def _hoist(self, st, caller, field='value'):
         """A call to a branching helper nested inside the expression of a simple statement: `x = [h(a)]` becomes the expanded
         helper followed by `x = [_ret]`.  Only when the call is evaluated unconditionally and nothing with an effect (another
         call, a yield) is evaluated before it in the statement, so the hoisted position is the position it ran at anyway."""
-        value = st.value
+        value = getattr(st, field)
         if value is None:
             return None
         found = []
@@ -395,14 +411,20 @@ class Inliner:
         visit(value, False)
         effects_before = False
         for call, conditional in found:        # post-order = evaluation order for calls
-            if call is value:
+            if call is value and field == 'value':
                 break
             h = None if conditional or effects_before else self.helper_for(call, caller)
             if h is not None and not h.is_generator and _expr_body(h) is None:
                 rep = self.expand(call, caller, None, False)
                 if rep is not None:
                     tmp = self._last_target(rep)
-                    new_st = copy.deepcopy(st)
+                    if field == 'test':
+                        new_st = copy.copy(st)
+                        new_st.test = copy.deepcopy(st.test)
+                        holder = new_st.test
+                    else:
+                        new_st = copy.deepcopy(st)
+                        holder = None
                     # replace the call (same position, same dump) in the copy
 
                     class R(ast.NodeTransformer):
@@ -414,7 +436,10 @@ class Inliner:
                                 R.done = True
                                 return ast.copy_location(ast.Name(id=tmp, ctx=ast.Load()), n)
                             return self.generic_visit(n)
-                    new_st = R().visit(new_st)
+                    if holder is not None:
+                        new_st.test = R().visit(holder)
+                    else:
+                        new_st = R().visit(new_st)
                     if R.done:
                         return rep + [new_st]
             effects_before = True
